@@ -50,7 +50,12 @@ Section Final.
     change (map (MultiGsh.X n 0) ps) with (map (leaf_idx n) ps) in Hs, Hr.
     exists sibs. destruct Hok as [Hn1 _]. assert (E0 : (n =? 0) = false) by lia. split.
     - unfold generate_proof. rewrite E0, (query_idxs_ok ps Hps). rewrite Hs. reflexivity.
-    - unfold verify_proof. rewrite E0, Hr. apply heqb_refl.
+    - unfold verify_proof. rewrite E0.
+      assert (Ev : forallb (fun i => (i =? 0) || valid_idx n i) (map (leaf_idx n) ps) = true).
+      { apply forallb_forall. intros z Hz. apply in_map_iff in Hz. destruct Hz as (p & <- & Hp).
+        unfold leaf_idx. rewrite (node_valid_idx n Hok 0 p); [apply orb_true_r|].
+        destruct (height_facts n Hok). split; [lia|]. rewrite N.pow_0_r. specialize (Hps p Hp). lia. }
+      rewrite Ev. cbn [negb]. rewrite Hr. apply heqb_refl.
   Qed.
 
   (* Update(idxs of positions ps, new data): lv = the list after the update (equal to l outside ps) *)
